@@ -10,17 +10,18 @@ Local Open Scope N_scope.
 (* operations whose WHERE solutions are given (everything but ModifyW) and that
    can succeed (everything but CREATE without SILENT) *)
 Definition no_where (o : uop) : bool :=
-  match o with ModifyW _ _ _ _ _ _ | Create false _ => false | _ => true end.
+  match o with DeleteWhereW _ | ModifyW _ _ _ _ _ _ | Create false _ => false | _ => true end.
 
 Theorem step_correct e k o s a : no_where o = true ->
   scope e o -> op_kf e k o = 0 -> kinv s -> qseteq (quads s) a -> step_ok e k o s a.
 Proof.
   intros Hnw Hd Hkf Hk Ha.
-  destruct o as [ts qs|ts qs|tm om|w ud un d i om|w ud un d i p|sl g|sl g|sl x y|sl x y|sl x y|sl c].
+  destruct o as [ts qs|ts qs|tm om|w ud un d i om|tm|w ud un d i p|sl g|sl g|sl x y|sl x y|sl x y|sl c].
   - apply insert_data_ok; auto.
   - apply delete_data_ok; auto.
   - apply delete_where_ok; auto.
   - apply modify_ok; auto.
+  - discriminate.
   - discriminate.
   - apply clear_ok; auto.
   - apply drop_ok; auto.
@@ -176,6 +177,22 @@ Proof.
   rewrite (s_all_perm e false k _ d om _ q Ld P), (s_all_perm e true k _ i om _ q Li P). tauto.
 Qed.
 
+(* DELETE WHERE with the solutions computed by the model (evalBGP, evalPart over
+   Graph nodes, _join): exactly the transformer whose solutions are those of the
+   quad pattern, read as a group graph pattern, over the store's dataset *)
+Theorem step_delete_where e k s tm : store_ok (quads s) -> kinv s ->
+  scope e (DeleteWhereW tm) -> tmpl_nolabel (Some tm) = true ->
+  step_ok e k (DeleteWhereW tm) s (quads s).
+Proof.
+  intros [Hn Hb] Hk Hs Hl.
+  destruct (delete_where_ok e k tm (dw_omega e tm (quads s)) s (quads s) Hs Hk) as [s' [E [Q I]]];
+    [intros q; tauto|].
+  exists s'. split; [exact E|split; [|exact I]].
+  intros q. rewrite (Q q). simpl. rewrite (dedup_id quad_eqb quad_eqb_spec (quads s)) by exact Hn.
+  rewrite !qdiff_In.
+  rewrite (s_all_perm e false k (dflt e) (Some tm) _ _ q Hl (dw_solutions e tm (quads s) Hn Hb)). tauto.
+Qed.
+
 (* well-formed cases: every graph that holds a quad is known to the store
    (Memory.add); a WHERE clause evaluated by the model only in the first
    operation of the request (there the store is the case's quad list itself),
@@ -183,6 +200,7 @@ Qed.
 Definition op_where_wf (o : uop) : Prop :=
   match o with
   | ModifyW _ _ _ d i p => where_ok p /\ tmpl_nolabel d = true /\ tmpl_nolabel i = true
+  | DeleteWhereW tm => tmpl_nolabel (Some tm) = true
   | Create false _ => False
   | _ => True
   end.
@@ -209,20 +227,26 @@ Proof.
   - destruct W2 as [Ow [Os Nr]].
     destruct (no_where o) eqn:No.
     + apply sequence_correct; auto; [simpl; rewrite No, Nr; reflexivity|intros q; simpl; tauto].
-    + destruct o as [| | | |w usingd usingn del ins where_| | | | | |[|] c0]; try discriminate; [|destruct Ow].
-      destruct Ow as [Hw [Ld Li]].
-      apply kf_from_cons in Hkf. destruct Hkf as [K1 K2].
-      assert (Hs : scope (c_env c) (ModifyW w usingd usingn del ins where_)).
-      { destruct Hd as [Hd|Hd]; [left; auto|right]. simpl in Hd. apply andb_true_iff in Hd.
-        apply negb_true_iff. tauto. }
-      destruct (step_where (c_env c) 0 (init_state c) w usingd usingn del ins where_ Hw (Os eq_refl) K0 Hs K1 Ld Li)
-        as [s1 [E1 [Q1 I1]]].
+    + assert (First : exists s1, eval_op (c_env c) 0 o (init_state c) = Ok s1
+                 /\ qseteq (quads s1) (spec_op (c_env c) 0 o (c_quads c)) /\ kinv s1
+                 /\ op_kf (c_env c) 0 o = 0 /\ kf_from (c_env c) (N.succ 0) r = 0).
+      { apply kf_from_cons in Hkf. destruct Hkf as [K1 K2].
+        assert (Hs : scope (c_env c) o).
+        { destruct Hd as [Hd|Hd]; [left; auto|right]. simpl in Hd. apply andb_true_iff in Hd.
+          apply negb_true_iff. tauto. }
+        destruct o as [| | | |tm0|w usingd usingn del ins where_| | | | | |[|] c0]; try discriminate; [| |destruct Ow].
+        - destruct (step_delete_where (c_env c) 0 (init_state c) tm0 (Os eq_refl) K0 Hs Ow) as [s1 H1].
+          exists s1. tauto.
+        - destruct Ow as [Hw [Ld Li]].
+          destruct (step_where (c_env c) 0 (init_state c) w usingd usingn del ins where_ Hw (Os eq_refl) K0 Hs K1 Ld Li)
+            as [s1 H1]. exists s1. tauto. }
+      destruct First as [s1 [E1 [Q1 [I1 [K1 K2]]]]].
       assert (Hd2 : has_dataset (c_env c) = true \/ forallb (fun o => negb (needs_dataset o)) r = true).
       { destruct Hd as [Hd|Hd]; auto. simpl in Hd. apply andb_true_iff in Hd. tauto. }
       destruct (sequence_correct (c_env c) r (N.succ 0) s1 _ Hd2 Nr K2 I1 Q1) as [s2 [E2 [Q2 I2]]].
       exists s2. split; [|split; auto].
-      change (eval_from (c_env c) 0 (ModifyW w usingd usingn del ins where_ :: r) (init_state c))
-        with (bind (eval_op (c_env c) 0 (ModifyW w usingd usingn del ins where_) (init_state c)) (eval_from (c_env c) (N.succ 0) r)).
+      change (eval_from (c_env c) 0 (o :: r) (init_state c))
+        with (bind (eval_op (c_env c) 0 o (init_state c)) (eval_from (c_env c) (N.succ 0) r)).
       rewrite E1. exact E2.
 Qed.
 
@@ -248,6 +272,7 @@ Definition op_graphs (e : env) (o : uop) (c : cid) : Prop :=
   | InsertData ts qs | DeleteData ts qs => c = dflt e \/ In c (map fst qs)
   | DeleteWhere tm om => exists i mu, In (c) (map snd (s_quads e false 0 i (dflt e) tm mu))
   | Modify w _ _ d i om => True
+  | DeleteWhereW _ => True
   | ModifyW _ _ _ _ _ _ => True
   | Create _ _ => False
   | Clear _ g | Drop _ g =>
@@ -258,10 +283,10 @@ Definition op_graphs (e : env) (o : uop) (c : cid) : Prop :=
   end.
 
 Lemma spec_untouched_data e k o a c :
-  match o with Modify _ _ _ _ _ _ | ModifyW _ _ _ _ _ _ | DeleteWhere _ _ => False | _ => True end ->
+  match o with Modify _ _ _ _ _ _ | ModifyW _ _ _ _ _ _ | DeleteWhere _ _ | DeleteWhereW _ => False | _ => True end ->
   ~ op_graphs e o c -> forall t, In (t, c) (spec_op e k o a) <-> In (t, c) a.
 Proof.
-  intros Hk Hn t. destruct o as [ts qs|ts qs|tm om|w ud un d i om|w ud un d i p|sl g|sl g|sl x y|sl x y|sl x y|sl c0];
+  intros Hk Hn t. destruct o as [ts qs|ts qs|tm om|w ud un d i om|tm|w ud un d i p|sl g|sl g|sl x y|sl x y|sl x y|sl c0];
     simpl in *; try tauto.
   - rewrite in_app_iff. unfold data_quads. rewrite in_app_iff, to_graph_In, in_flat_map. simpl.
     split; [|tauto]. intros [H|[[_ H]|[b [Hb H]]]]; auto; exfalso; apply Hn; auto.
@@ -397,7 +422,7 @@ Theorem older_step e k o a : op_bounded (window k) o -> older (window k) a ->
 Proof.
   intros Hb Ho. pose proof (window_mono k) as Hm.
   assert (Ho' : older (window (k + 1)) a) by (eapply older_mono; eauto).
-  destruct o as [ts qs|ts qs|tm om|w ud un d i om|w ud un d i p|sl g|sl g|sl x y|sl x y|sl x y|sl c0]; simpl;
+  destruct o as [ts qs|ts qs|tm om|w ud un d i om|tm|w ud un d i p|sl g|sl g|sl x y|sl x y|sl x y|sl c0]; simpl;
     intros q Hq t Ht; try (destruct Hb; fail).
   - apply in_app_iff in Hq. destruct Hq as [Hq|Hq]; [eapply Ho'; eauto|].
     destruct Hb as [B1 B2]. apply data_quads_In' in Hq.
@@ -414,6 +439,7 @@ Proof.
     apply filter_In in Hq. destruct Hq as [Hq _].
     apply enum_from_bound in Him as Hi. assert (Hmu : In (snd im) om) by (eapply enum_from_snd; eauto).
     eapply (fill_bound k (fst im) (snd im) (snd b)); eauto; [intros tp Htp; apply (Bt b Hb' tp Htp)|lia].
+  - apply qdiff_In in Hq. eapply Ho'; [apply Hq|eauto].
   - apply spec_clear_In in Hq. eapply Ho'; [apply Hq|eauto].
   - apply spec_clear_In in Hq. eapply Ho'; [apply Hq|eauto].
   - destruct (N.eqb _ _); [eapply Ho'; eauto|]. apply in_app_iff in Hq. destruct Hq as [Hq|Hq]; [eapply Ho'; eauto|].
